@@ -221,7 +221,11 @@ func c03Gen(r *kit.Rand, idx int, tiny []byte) c03Case {
 				at.Resume = rs
 			}
 		}
-		if r.Chance(1, 6) {
+		if c03Big && idx%25 == 11 && a == 0 {
+			// thorough tier: a CDN body that stops in the middle for longer than the client's 30 s stall limit
+			at.Stream, at.Disconnect, at.Resume = true, 0, nil
+			at.Faults = []Fault{{Kind: "cdn", Nth: r.Range(1, 2), Act: "stall-mid", Arg: int64(r.Intn(70000)), Code: 33}}
+		} else if r.Chance(1, 6) {
 			ov := &c03Overlap{Damage: kit.Pick(r, []string{"flip", "no-length", "none", "flip"})}
 			ov.Join = ov.Damage != "no-length" && r.Chance(1, 4)
 			at.Stream, at.Disconnect, at.Resume, at.Faults = true, 0, nil, nil
@@ -359,6 +363,9 @@ func c03Run(bin, work string, c *c03Case, rep *kit.Report) (vs []c03Viol, inconc
 		rep.Count("attempts", 1)
 		for _, f := range plan {
 			rep.Count("fault_"+f.Kind+"_"+f.Act, 1)
+			if f.Act == "stall-mid" && strings.Contains(srv.Log(), "stalled; retrying") {
+				rep.Count("stall_noticed_and_part_retried_by_client", 1)
+			}
 		}
 		// ---- always: the server survives
 		if !srv.Alive() {
